@@ -30,7 +30,7 @@ ASSUMPTIONS = [
     'failure belong to the same request and must stay on the same node.',
     'A transport exception counts as a failed request.',
 ]
-EXPECTED_PROBES = ['request_from_worker_thread', 'duplicate_pool_entry', 'two_clients_one_uri_list', 'error_then_request', 'exception_then_request', 'transient_exhausted_then_request', 'wrapped_around']
+EXPECTED_PROBES = ['pool_given_as_bare_string', 'request_from_worker_thread', 'duplicate_pool_entry', 'two_clients_one_uri_list', 'error_then_request', 'exception_then_request', 'transient_exhausted_then_request', 'wrapped_around']
 
 OUTCOMES = ['ok', 's404', 's401', 's400', 'perm500', 'trans_ok', 'trans6', 'exc', 'exc_timeout', 'exc_chunked', 'exc_connect_timeout']
 VIAS = ['get', 'post', 'put', 'delete', 'request', 'shell.header', 'shell.counter', 'shell.inject',
@@ -43,7 +43,11 @@ def gen(seed, tier):
     enabled = [o for o in OUTCOMES if rng.random() < 0.6] or ['ok']
     if 'ok' not in enabled and rng.random() < 0.7:
         enabled.append('ok')
-    nreq = rng.randint(1, 24 if tier == 'thorough' else 16)
+    long_run = rng.random() < (0.15 if tier == 'thorough' else 0.03)
+    very_long = rng.random() < (0.03 if tier == 'thorough' else 0.004)
+    if very_long:
+        n = rng.choice([3, 3, 2, 4])  # thousands of requests on one client
+    nreq = rng.randint(1005, 2100) if very_long else rng.randint(40, 80) if long_run else rng.randint(1, 24 if tier == 'thorough' else 16)
     err_rate = rng.choice([0.1, 0.3, 0.6, 0.9])
     two_clients = rng.random() < 0.25
     # a pool may list one node twice (double weight): entries are positions, not distinct hosts
@@ -68,7 +72,7 @@ def gen(seed, tier):
         if o == 'trans_ok':
             st['r'] = rng.randint(1, 5)
         steps.append(st)
-    return {'prop': ID, 'n': n, 'hosts': hosts, 'steps': steps}
+    return {'prop': ID, 'n': n, 'hosts': hosts, 'steps': steps, 'bare_string_pool': n == 1 and rng.random() < 0.5}
 
 
 def execute(scn, want_log=False):
@@ -124,13 +128,14 @@ def execute(scn, want_log=False):
 
     with core.Seams(sim, tr):
         shared_list = list(uris)  # one list object handed to every client, as the module-level `nodes[net]` lists are
-        clients = {0: RpcMultiNode(shared_list)}
+        # the constructor accepts a single URI string as well as a list
+        clients = {0: RpcMultiNode(shared_list[0] if scn.get('bare_string_pool') else shared_list)}
         shells = {}
         counts = {0: 0, 1: 0}
         for gi, st in enumerate(scn['steps']):
             cid = st.get('client', 0)
             if cid not in clients:
-                clients[cid] = RpcMultiNode(shared_list)  # created lazily: the first client may already have made requests
+                clients[cid] = RpcMultiNode(shared_list[0] if scn.get('bare_string_pool') else shared_list)  # created lazily: the first client may already have made requests
             node = clients[cid]
             key = (cid, bool(st.get('shell2')))
             if key not in shells:
@@ -184,6 +189,8 @@ def execute(scn, want_log=False):
                     box['raised'] = e
                 except requests.exceptions.RequestException as e:
                     box['raised'] = e
+                except (AssertionError, TypeError, ValueError, IndexError, KeyError, AttributeError) as e:
+                    box['raised'] = e  # the client broke instead of sending: judged below (no attempt reached any node)
                 except BaseException as e:  # noqa: BLE001  (harness errors / caps raised on the worker thread are re-raised on the main one)
                     box['fatal'] = e
             if st.get('thread'):
@@ -213,6 +220,10 @@ def execute(scn, want_log=False):
                 bump('wrapped_around')
             if cid == 1:
                 bump('two_clients_one_uri_list')
+            if scn.get('bare_string_pool') and i == 1:
+                bump('pool_given_as_bare_string')
+            if i == 1001:
+                bump('more_than_1000_requests_on_one_client')
             if len(set(uris)) < len(uris):
                 bump('duplicate_pool_entry')
             hosts = [r['host'] for r in reqs]
